@@ -135,11 +135,11 @@ theorem doReplaceWorkload_failed_partial (w : Wl R) (flt : Option Addr) (hG : Re
     have hnext : w.id < ms.st.next := h.2.1 w hw
     split
     · -- engineStop hit: the rollback starts the container again
-      simp only [txnK1_fail_some, wpK_fail, exec_step, hit_fired, failMS_fired, Bool.false_eq_true, if_false]
+      simp only [txnK1_fail_some, wpK_fail, exec_withDetached, exec_step, setDet_fired, hit_fired, failMS_fired, Bool.false_eq_true, if_false]
       intro _
       refine ⟨⟨rfl, rfl, rfl, fun _ => Iff.rfl⟩, fun c hc hid => Or.inl ?_⟩
       exact mem_setRunning w.id true hc hid
-    · simp only [txnK1_ok]
+    · simp only [txnK1_ok_some]
       generalize hms2 : okMS ms "storeGetNode" w.node id = ms1
       have e1 : ms1.st = ms.st := by rw [← hms2]; rfl
       generalize hms3 : okMS ms1 "engineStop" w.node (setRunning w.id false) = ms2
@@ -155,8 +155,9 @@ theorem doReplaceWorkload_failed_partial (w : Wl R) (flt : Option Addr) (hG : Re
       rcases h3 with ⟨rfl, hp⟩ | ⟨rfl, hp⟩
       · obtain ⟨_, _, _, _, _, _, _, _, hp⟩ := hp
         rcases hp with ⟨_, _, _, _⟩ | ⟨hb, _⟩
-        · simp only [wpK_ok, wp_pure, txnK1_ok]
-          apply wp_mono (doRemoveWorkload_guarded w flt hG ms3)
+        · simp only [wpK_ok, wp_pure, txnK1_ok_none]
+          rw [wp_withDetached]
+          apply wp_mono (doRemoveWorkload_guarded w flt hG (setDet ms3 true) rfl)
           intro o4 ms4 h4
           obtain ⟨rfl, _⟩ := h4
           simp only [txnK2_ok, wpK_ok, wp_pure]
@@ -165,7 +166,7 @@ theorem doReplaceWorkload_failed_partial (w : Wl R) (flt : Option Addr) (hG : Re
       · obtain ⟨hc3, hn3, hu3, _, _, _, _, _, hp⟩ := hp
         rcases hp with ⟨hb, _⟩ | ⟨_, hf3, hws3, hcts3⟩
         · cases hb
-        · simp only [wpK_fail, txnK1_fail_none, txnK2_fail_some, exec_step, hf3, hit_fired,
+        · simp only [wpK_fail, txnK1_fail_none, txnK2_fail_some, exec_withDetached, exec_step, setDet_fired, hf3, hit_fired,
             Bool.false_eq_true, if_false]
           intro _
           have hws : ms3.st.wls = ms.st.wls := by
@@ -174,7 +175,7 @@ theorem doReplaceWorkload_failed_partial (w : Wl R) (flt : Option Addr) (hG : Re
             · rw [e, e2w, e2x, filter_fresh h.2.1]
           refine ⟨⟨by simp [hn3, e2n], by simp [hc3, e2c], by simp [hu3, e2u], fun x => by simp [hws]⟩,
             fun c hc hid => Or.inl ?_⟩
-          simp only [okMS_st, setRunning_cts]
+          simp only [setDet_st, okMS_st, setRunning_cts]
           have hstop : (⟨c.id, c.node, false⟩ : Ct) ∈ ms2.st.cts := by
             rw [e2t]; exact mem_setRunning w.id false hc hid
           have hin3 : (⟨c.id, c.node, false⟩ : Ct) ∈ ms3.st.cts := by
@@ -239,18 +240,19 @@ of any node, a WAL write, a marker write — then after the rollback `utils.Txn`
 workload records and every node's usage are exactly what they were. -/
 theorem createCond_failure_restores (a : CreateArgs R) (flt : Option Addr) (ms : MS R) (h : P0 ms) :
     wp (createCond a) (fun o ms1 => o = .fail →
-      (exec (createRollback a true) flt ms1).st.wls = ms.st.wls ∧
-      (exec (createRollback a true) flt ms1).st.usage = ms.st.usage) flt ms := by
+      (exec (withDetached (createRollback a true)) flt ms1).st.wls = ms.st.wls ∧
+      (exec (withDetached (createRollback a true)) flt ms1).st.usage = ms.st.usage) flt ms := by
   have h1 := createCond_spec a flt ms h
   have h2 := createCond_keeps_wls a ms.st.wls flt ms rfl
   unfold wp at h1 h2 ⊢
   intro hfail
   rw [hfail] at h1
-  have hF : F1 (createCond a flt ms).2 := h1
-  have hinv : Inv (exec (createRollback a true) flt (createCond a flt ms).2).st :=
-    rollbackCond_inv a flt _ hF
-  have hw : (exec (createRollback a true) flt (createCond a flt ms).2).st.wls = ms.st.wls :=
-    rollbackCond_keeps_wls a ms.st.wls flt _ h2
+  have hF : F1 flt (setDet (createCond a flt ms).2 true) := h1
+  have hinv : Inv (exec (createRollback a true) flt (setDet (createCond a flt ms).2 true)).st :=
+    rollbackCond_inv a flt _ hF rfl
+  have hw : (exec (createRollback a true) flt (setDet (createCond a flt ms).2 true)).st.wls = ms.st.wls :=
+    rollbackCond_keeps_wls a ms.st.wls flt (setDet (createCond a flt ms).2 true) h2
+  simp only [exec_withDetached, setDet_st]
   refine ⟨hw, ?_⟩
   funext m
   have e1 := hinv.2.2 m
